@@ -397,3 +397,7 @@ Proof.
   intros s. destruct (G sched (init_st cc body now0)) as [Hp|Hin]; [left; reflexivity|left; exact Hp|].
   right. apply conc_done_after_cancel; assumption.
 Qed.
+
+(* the http client's error-reporting flags never reach a no-op backend's status handling *)
+Lemma noop_ignores_error_flags f : noop_backend_status_handler f = HNoOp.
+Proof. reflexivity. Qed.
